@@ -68,6 +68,8 @@ func init() {
 				cfg.SkipProviderButton = true
 			case "forcehttps":
 				cfg.ForceHTTPS = true
+			case "redirecturl":
+				cfg.RedirectURL = "https://app.example.com/oauth2/callback"
 			case "insecure_cookie":
 				f := false
 				cfg.CookieSecure = &f
